@@ -18,6 +18,7 @@ pub fn def() -> CheckDef {
         assumptions: &["monotone simulated clock", "message generation order is read from the id shim's sequence numbers", "no storage errors are injected"],
         probes: &["probe.delivery_order_differs_from_generation", "probe.caught_error", "probe.msg_act", "probe.non_complete_ending"],
         quick_cases: 3000,
+        no_shrink: &[],
     }
 }
 
